@@ -276,6 +276,20 @@ func createImageFunctions() { //nolint:funlen // this is a group of related func
 	createVectorImageFunctions(cdata)
 }
 
+// Pen coordinates are limited to a window around the largest image: the rasterizer subdivides a curve into a
+// number of segments that grows with the distance covered, in a loop that cannot be cancelled
+// (billions of iterations for coordinates like MaxInt64, NaN or Inf).
+const maxPenCoordinate = 16 * MaxImageDimension
+
+func penCoordinatesOk(args []object.Object) bool {
+	for _, a := range args {
+		if f, ok := a.(object.Float); ok && !(math.Abs(f.Value) <= maxPenCoordinate) {
+			return false
+		}
+	}
+	return true
+}
+
 func createVectorImageFunctions(cdata ImageMap) { //nolint:funlen // this is a group of related functions.
 	imgFn := object.Extension{
 		Name:       "image.move_to",
@@ -289,6 +303,9 @@ func createVectorImageFunctions(cdata ImageMap) { //nolint:funlen // this is a g
 			img, ok := images[args[0]]
 			if !ok {
 				return object.Errorf("image %q not found", args[0].(object.String).Value)
+			}
+			if !penCoordinatesOk(args[1:]) {
+				return object.Errorf("coordinates out of range")
 			}
 			x := int(args[1].(object.Float).Value)
 			y := int(args[2].(object.Float).Value)
@@ -304,6 +321,9 @@ func createVectorImageFunctions(cdata ImageMap) { //nolint:funlen // this is a g
 		img, ok := images[args[0]]
 		if !ok {
 			return object.Errorf("image %q not found", args[0].(object.String).Value)
+		}
+		if !penCoordinatesOk(args[1:]) {
+			return object.Errorf("coordinates out of range")
 		}
 		x := int(args[1].(object.Float).Value)
 		y := int(args[2].(object.Float).Value)
@@ -393,6 +413,9 @@ func createVectorImageFunctions(cdata ImageMap) { //nolint:funlen // this is a g
 		if !ok {
 			return object.Errorf("image %q not found", args[0].(object.String).Value)
 		}
+		if !penCoordinatesOk(args[1:]) {
+			return object.Errorf("coordinates out of range")
+		}
 		x1 := int(args[1].(object.Float).Value)
 		y1 := int(args[2].(object.Float).Value)
 		x2 := int(args[3].(object.Float).Value)
@@ -413,6 +436,9 @@ func createVectorImageFunctions(cdata ImageMap) { //nolint:funlen // this is a g
 		img, ok := images[args[0]]
 		if !ok {
 			return object.Errorf("image %q not found", args[0].(object.String).Value)
+		}
+		if !penCoordinatesOk(args[1:]) {
+			return object.Errorf("coordinates out of range")
 		}
 		x1 := int(args[1].(object.Float).Value)
 		y1 := int(args[2].(object.Float).Value)
